@@ -255,6 +255,22 @@ func c04Run(j *rt.Job, seed uint64, r *rt.Rec) {
 		if !x.judge("valid-long-message", long, lsig, pk, "accept", true) || !x.judge("long-message-last-byte", flipBit(long, len(long)*8-1), lsig, pk, "reject", true) {
 			return
 		}
+		// lengths that are exact multiples of 64 KiB: every block must matter
+		for _, l := range []int{65536, 131072} {
+			m := rt.NewRand(uint64(l), "c04block/"+c.Seed).Bytes(l)
+			sg := refKey.Sign(1, m)
+			if !x.judge("valid-long-message", m, sg, pk, "accept", true) {
+				return
+			}
+			for _, bit := range []int{0, 8*l - 1, 8 * (l - 65536), 8*(l-65536) + 7, 8 * (l - 1)} {
+				if !x.judge("long-message-bitflip", flipBit(m, bit), sg, pk, "reject", true) {
+					return
+				}
+			}
+			if !x.judge("long-message-truncated", m[:l-65536], sg, pk, "reject", true) || !x.judge("long-message-truncated", m[:l-1], sg, pk, "reject", true) {
+				return
+			}
+		}
 	}
 	// 4. substitutions
 	other := XCfg{H: c.H, HF: c.HF, Seed: rt.Hex(rng.Bytes(48))}
@@ -533,6 +549,23 @@ func c04Sparse(j *rt.Job, x *c04Ctx) {
 		sec := xmssref.Expand(rng.Bytes(48))
 		n := uint64(1) << uint(h)
 		idxs := []uint32{uint32(n - 1), uint32(n / 2), uint32(rng.U64() % n)}
+		// an index field beyond the tree: the recomputation uses the index as given (the reference decides)
+		for _, big := range []uint64{n, n + 1 + rng.U64()%n, 2*n + 3, 1 << 31, 1<<32 - 1} {
+			if big < 1<<32 {
+				msg := rng.Bytes(10)
+				sig, pk := sec.SparseTriple(xmssref.Hash(hf), h, uint32(big), msg, rng.Bytes(32*h), [3]byte{byte(hf), byte(h / 2), 0})
+				if !x.judge("sparse-index-beyond-tree", msg, sig, pk, "ref", true) {
+					return
+				}
+				// the same signature with the index reduced modulo 2^h must not be accepted (nor the other way round)
+				s2 := append([]byte(nil), sig...)
+				v := uint32(big) & uint32(n-1)
+				s2[0], s2[1], s2[2], s2[3] = byte(v>>24), byte(v>>16), byte(v>>8), byte(v)
+				if !x.judge("sparse-index-beyond-tree", msg, s2, pk, "ref", true) {
+					return
+				}
+			}
+		}
 		if h >= 10 {
 			idxs = append(idxs, 255, 256, 65535&uint32(n-1), uint32(n-1)&0xFFFFFF00)
 		}
